@@ -194,6 +194,42 @@ def check_model(chk, name, decls, cfg, tier, rng, compilers):
                           {'cfg': cfg, 'decls': decls}, {'kind': 'separate-tu-failure'})
 
 
+def check_two_shells(chk, rng):
+    """Two shells generated for the SAME encapsulee (different suffix, different support-file prefix, opposite semantics)
+    are used from one translation unit: every returned header is included exactly once, both shell types must be declared
+    and complete.  (Whatever a header uses to protect itself against re-inclusion must be unique per generated file.)"""
+    for k in range(3):
+        decls, cfg, _ = gen_model(rng, want_mc=False, nports=2)
+        other = dict(cfg, suffix='Other' + cfg['suffix'], prefix=['Second'] + list(cfg['prefix'] or []),
+                     prov={'sts': shell.ALL, 'mts': shell.NONE} if cfg['prov']['sts']['w'] == 'NONE' else {'sts': shell.NONE, 'mts': shell.ALL},
+                     req={'sts': shell.ALL, 'mts': shell.NONE}, origin='import' if cfg['origin'] == 'create' else 'create')
+        progs = [cxx.Program(decls, cfg), cxx.Program(decls, other)]
+        if not all(p.generate() for p in progs):
+            chk.notes.append('two-shells: a model did not build')
+            continue
+        workdir = core.subdir(f'c06-two-{k}')
+        names = []
+        for prog in progs:
+            for fname, text in prog.files.items():
+                with open(os.path.join(workdir, fname), 'w', encoding='utf-8') as fil:
+                    fil.write(text)
+            names.append(prog.info.shell_name)
+        with open(os.path.join(workdir, cfg.get('base', 'M') + '.hh'), 'w', encoding='utf-8') as fil:
+            fil.write(cxxgen.model_header(progs[0].info))
+        text = '#include <stdexcept>\n' + ''.join(f'#include "{n}.hh"\n' for n in names)
+        text += ''.join(f'static_assert(sizeof({p.info.shell_fqn}) > 0, "shell type is declared and complete");\n' for p in progs)
+        text += 'int main() { return 0; }\n'
+        okay, err = compile_tu(workdir, text, 'two')
+        chk.programs += 1
+        chk.count(('two-shells', k))
+        if not okay:
+            first = next((ln for ln in err.splitlines() if ' error: ' in ln), err[:200])
+            anon = not progs[0].info.scope
+            chk.violation(f'two shells of one encapsulee ({names}) cannot be used from one translation unit: {first[:240]}',
+                          {'decls': decls, 'cfgs': [cfg, other], 'compiler_output': err[:2500]},
+                          {'kind': 'two-shells-one-tu', 'anonymous': anon})
+
+
 def check_prefixes(chk):
     """Support headers generated with different namespace prefixes coexist in one program."""
     core.repo_guard()
@@ -255,6 +291,7 @@ def check_c06(tier, seed):
         models.append((f'random{k}', decls, cfg))
     for name, decls, cfg in models:
         check_model(chk, name, decls, cfg, tier, rng, compilers)
+    check_two_shells(chk, rng)
     check_prefixes(chk)
     chk.trusted = ['mock Dezyne 2.17 runtime headers under /verif/cxx/mock (they mirror the standard headers the real ones '
                    'include)', 'mock of the Dezyne-generated model header', 'g++ 12 / clang++ 14 as the judges (errors only)']
